@@ -8,20 +8,22 @@ out = []
 out.append("### 0.3 Repaired defects and known findings (from known_findings.jsonl)\n")
 out.append("| id | kind | property (also) | commit | what |\n|---|---|---|---|---|")
 collapsed = 0
+maxkb = 0
 for line in open(os.path.join(ROOT, "known_findings.jsonl")):
     line = line.strip()
     if not line: continue
     k = json.loads(line)
     m = re.match(r"K-B(\d+)$", k["id"])
+    if m: maxkb = max(maxkb, int(m.group(1)))
     if m and int(m.group(1)) > 5 and int(m.group(1)) != 75:
         collapsed += 1      # instances of the thorough sweep: one summary row below
         continue
     what = k["what"].replace("|", "\\|")
     out.append("| %s | %s | %s %s | %s | %s |" % (k["id"], k["kind"], k["property"], ("(" + ", ".join(k.get("also", [])) + ")") if k.get("also") else "", k.get("commit", "-"), what))
 if collapsed:
-    out.append("| K-B6 … K-B92 | known | C10  | - | %d further instances of the same kind (the planner misses a shorter plan), each identified by its exact (modes, list, input) and found by the thorough sweep; every witness stream was confirmed to decode to the input with the crate's own decoder (tools/mk_c10_known.py); listed one per line in known_findings.jsonl |" % collapsed)
+    out.append("| K-B6 … K-B%d | known | C10  | - | %%d further instances of the same kind (the planner misses a shorter plan), each identified by its exact (modes, list, input) and found by the thorough sweep; every witness stream was confirmed to decode to the input with the crate's own decoder (tools/mk_c10_known.py); listed one per line in known_findings.jsonl |" % maxkb % collapsed)
 out.append("\n### 0.4 Seeded mutations (from seeded/*/meta.json) and the checks that report them\n")
-out.append("Each mutation was produced by a fresh sub-agent that saw only the property text and a scratch worktree; it compiles, passes the 167 tests, and its demonstration fails with it and passes without it (confirmed by tools/seed.py in a scratch worktree). `detected by` lists the quick checks that exit 1 with the mutation applied to /repo.\n")
+out.append("Each mutation was produced by a fresh sub-agent that saw only the property text and a scratch worktree; it compiles, passes the 167 tests, and its demonstration fails with it and passes without it (confirmed by tools/seed.py in a scratch worktree). `detected by` lists the quick checks that exit 1 with the mutation applied to /repo. Round 1 (suffix -1, -2) and round 2 (-3, -4; the agents were told what round 1 had changed and asked for a different site or mechanism). In round 2 five of the first 22 mutations passed the quick check of their property (C05-3, C05-4, C10-4, C16-3, C16-4: a Reed-Solomon error location exactly one position in front of the block, stray pixels after a complete symbol, a planner look-ahead threshold that matters for exactly seven digits, a Macro envelope nested in a Macro envelope, a Macro body that itself ends in RS EOT). None of them needed a new model or oracle - the inputs were missing. The generators were extended (words whose syndromes are those of errors at locations outside the shortened block; nested envelopes; pixel arrays around valid symbols with stray / missing pixels and wrong widths, gen c05p; messages made of runs of one character class with every digit-run length 1..10; every documented entry point - DataMatrix::encode, encode_gs1, DataMatrixBuilder::encode, data::encode_data, data::encodation_plan, the SymbolList API - compared with the builder path that the sweeps use, after an llvm-cov run of all quick generators showed these wrappers were never executed) and all five are now reported; their meta.json keeps the history.\n")
 out.append("| seeded | what was changed | needs | detected by (quick tier) |\n|---|---|---|---|")
 for d in sorted(glob.glob(os.path.join(ROOT, "seeded", "*"))):
     mp = os.path.join(d, "meta.json")
@@ -35,7 +37,7 @@ for d in sorted(glob.glob(os.path.join(ROOT, "seeded", "*"))):
             nf = any("no-failing-input-found" in l for l in v["lines"])
             lines.append(c + (" (no-failing-input-found)" if nf else ""))
     out.append("| %s | %s | %s | %s |" % (os.path.basename(d), m.get("summary", "").replace("|", "\\|").replace("\n", " ")[:300],
-               str(m.get("needs", "")).replace("|", "\\|").replace("\n", " ")[:250], ", ".join(lines) if lines else ("NOT DETECTED" if conf.get("confirmed") else "not confirmed")))
+               str(m.get("needs", "")).replace("|", "\\|").replace("\n", " ")[:250], (", ".join(lines) if lines else ("NOT DETECTED" if conf.get("confirmed") else "not confirmed")) + (" (first missed, see history)" if m.get("history") else "")))
 out.append("\n### 0.5 Theorem counts per property (from the last evidence files)\n")
 out.append("| property | level | theorems checked | cases (quick) | non-trivial |\n|---|---|---|---|---|")
 for p in sorted(glob.glob(os.path.join(ROOT, "evidence", "C*.json"))):
